@@ -228,7 +228,8 @@ POLYMORPHIC = {
 
 # client modules: parameters called `order` / `size` denote a hyperedge order / size, except where the word means
 # something else (motif order = number of nodes, numpy `size=` sample counts, EM model sizes)
-CLIENT_PARAM_BY_NAME = {"order": opt(ORDER), "size": opt(SIZE)}
+# (`max_hyperedge_size`: the size bound of the directed measures - "sizes 2..6, all bounds max_hyperedge_size >= 2", C12)
+CLIENT_PARAM_BY_NAME = {"order": opt(ORDER), "size": opt(SIZE), "max_hyperedge_size": opt(SIZE)}
 CLIENT_NAME_EXCLUDED_PREFIXES = (
     "hypergraphx.motifs",
     "hypergraphx.communities",
